@@ -101,7 +101,8 @@ def run(tier, pid="C19", ev=None, vd=None, finish=True):
             tpath = os.path.join(work, f"rand{k}.ndjson")
             p = vlib.run_cmd([bins["vh_plan"], "plan-random", str(m), str(vlib.seed() * 7919 + k), tpath])
             if p.returncode != 0:
-                raise vlib.ToolError("vh_plan plan-random failed: " + p.stderr.decode()[-2000:])
+                vlib.harness_died(vd, "vh_plan plan-random", p)
+                return vd.finish()
             r = tlc("PlanTrace", "PlanTrace.cfg", workers=1, timeout=1500, env_extra={"TRACE": tpath}, depth_first=True)
             res = r.payloads.get("RESULT", [])
             if not res or res[0]["n"] != m:
